@@ -150,6 +150,21 @@ func run(r *hx.Run) error {
 			r.Emit(op, res)
 		}
 	}
+	// "queries with replies arriving early, late or never" x "no lost events": a cursor-position query that is
+	// given up (the terminal never answers), answered in time, or not issued at all, followed by keys
+	// whose legacy encoding has the shape of the report (F3 = CSI R, Ctrl+F3 = CSI 1;5R, ...): every
+	// key the terminal sent must be delivered exactly as it is without any query
+	nl := 6
+	if r.Thorough {
+		nl = 24
+	}
+	for i := 0; i < nl; i++ {
+		rng := h.rng.Fork(uint64(9000 + i))
+		op := fmt.Sprintf("lostkey seed=%d variant=%d", rng.Intn(1<<30), []int{1, 3, 2, 1, 0, 3}[i%6])
+		r.Case(fmt.Sprintf("lostkey%d", i))
+		res, _ := h.replayOp(strings.Fields(op))
+		r.Emit(op, res)
+	}
 	// race-detector run of the same schedule kinds in a child process
 	for _, grp := range []string{"use", "dblclose", "sigsuspend"} {
 		r.Case("race-" + grp)
@@ -219,6 +234,10 @@ func (h *H) replayOp(f []string) (string, bool) {
 		}
 		res := forcedCase(kind, m["q"], m["keys"])
 		count("forced:" + kind + ":" + strings.Fields(res)[0])
+		return res, true
+	case "lostkey":
+		res := lostKeyCase(uint64(m["seed"]), m["variant"])
+		count(fmt.Sprintf("lostkey:variant%d", m["variant"]))
 		return res, true
 	case "sigsuspend":
 		res := sigSuspendCase(uint64(m["seed"]), m["delay"])
@@ -468,6 +487,83 @@ func postCase(seed uint64, posters, m, q, keys int) string {
 		fmt.Fprintf(&sb, " leaked=%s", strings.ReplaceAll(leakedFuncs(), " ", "_"))
 	}
 	return sb.String()
+}
+
+// ---------- lostkey: keys shaped like a cursor-position report around a query that is given up ----------
+
+// lostKeyCase runs the same terminal input twice: on a Vaxis that never issued a cursor-position
+// query (the control), and on one whose query was given up `variant` = 1: once, 3: twice (the
+// terminal does not answer DSR; CursorPosition returns -1,-1 after its own deadline), 2: answered in
+// time, 0: no query.  The input is `a`, a key whose legacy encoding is `CSI [1;m] R` (F3 with
+// modifiers — the shape of the report), `b`.  Result: the key events delivered in both runs.  No
+// elapsed time decides anything: both runs wait for the event of `b` (failure time-out only).
+func lostKeyCase(seed uint64, variant int) string {
+	rng := gen.New(seed)
+	ks := gen.Pick(rng, []string{"\x1b[R", "\x1b[1;5R", "\x1b[1;2R", "\x1b[1;3R", "\x1b[1;6R"})
+	mask := uint32(rng.U64()) & (1<<19 - 1) &^ (1 << 14) &^ 1 // no kitty keyboard: legacy key encodings
+	one := func(variant int) (string, string) {
+		vx, fc, err := newVx(0, mask)
+		if err != nil {
+			return "error-new", "-"
+		}
+		var mu sync.Mutex
+		var names []string
+		sawB := make(chan struct{})
+		stop := make(chan struct{})
+		cdone := make(chan struct{})
+		go func() {
+			defer close(cdone)
+			for {
+				select {
+				case ev := <-vx.Events():
+					if k, ok := ev.(vaxis.Key); ok {
+						mu.Lock()
+						names = append(names, k.String())
+						mu.Unlock()
+						if k.Text == "b" || k.Keycode == 'b' {
+							select {
+							case <-sawB:
+							default:
+								close(sawB)
+							}
+						}
+					}
+				case <-stop:
+					return
+				}
+			}
+		}()
+		pos := "-"
+		query := func() {
+			r, c := vx.CursorPosition()
+			pos = fmt.Sprintf("%d,%d", r, c)
+		}
+		switch variant {
+		case 1, 3:
+			fc.Silent = true
+			query()
+			if variant == 3 {
+				query()
+			}
+			fc.Silent = false
+		case 2:
+			query()
+		}
+		fc.InjectString("a" + ks + "b")
+		select {
+		case <-sawB:
+		case <-time.After(bound):
+		}
+		withBound(vx.Close)
+		close(stop)
+		<-cdone
+		mu.Lock()
+		defer mu.Unlock()
+		return joinOr(names), pos
+	}
+	ctl, _ := one(0)
+	got, pos := one(variant)
+	return fmt.Sprintf("ctl=%s got=%s pos=%s seq=%s", ctl, got, pos, hx.Hex(ks))
 }
 
 func joinOr(xs []string) string {
